@@ -178,3 +178,109 @@ func Harness_C08_Locations() {
 		nd.Assert("loc:return-statement", len(m.Stmt[0].SourceContexts) == 1 && c08At(m.Stmt[0].SourceContexts[0], w.pos["ret"]) && c08EndOK(m.Stmt[0].SourceContexts[0]))
 	}
 }
+
+// further element shapes, one per path, with a symbolic number of blank lines in front:
+// a field with an array size, an inline (nested) tuple field, a multi-line annotation
+// declared again, an endpoint re-opened with only an annotation, an event / alias / enum /
+// union declared again.
+//
+//verif:shard-quick 8 1
+//verif:shard-thorough 8 1
+func Harness_C08_MoreShapes() {
+	shape := nd.IntRange("shape", 0, 7)
+	lead := nd.IntRange("blank-lines-before", 0, 1)
+	w := &c08Writer{pos: map[string][2]int{}}
+	w.blank(lead)
+	switch shape {
+	case 0: // field with an array size
+		w.emit("app", 0, "App:")
+		w.emit("type", 4, "!type T:")
+		w.emit("f", 8, "f(1..3) <: int")
+		w.emit("g", 8, "g <: int")
+	case 1: // inline tuple
+		w.emit("app", 0, "App:")
+		w.emit("type", 4, "!type T:")
+		w.emit("f", 8, "f <:")
+		w.emit("inner", 12, "x <: int")
+		w.emit("g", 8, "g <: int")
+	case 2: // multi-line annotation declared again
+		w.emit("app", 0, "App:")
+		w.emit("anno", 4, "@note =:")
+		w.emit("", 8, "| first")
+		w.emit("ep", 4, "e:")
+		w.emit("", 8, "...")
+		w.emit("app2", 0, "App:")
+		w.emit("anno2", 4, "@note =:")
+		w.emit("", 8, "| again")
+		w.emit("ep2", 4, "e2:")
+		w.emit("", 8, "...")
+	case 3: // endpoint re-opened with only an annotation
+		w.emit("app", 0, "App:")
+		w.emit("ep", 4, "e:")
+		w.emit("s1", 8, "do something")
+		w.emit("s2", 8, "do more")
+		w.emit("app2", 0, "App:")
+		w.emit("ep2", 4, "e:")
+		w.emit("", 8, "@x = \"y\"")
+	case 4: // event declared again
+		w.emit("app", 0, "App:")
+		w.emit("ep", 4, "<-> Ev:")
+		w.emit("", 8, "...")
+		w.emit("app2", 0, "App:")
+		w.emit("ep2", 4, "<-> Ev:")
+		w.emit("", 8, "...")
+	case 5, 6, 7: // alias / enum / union declared again
+		decl := [][2]string{{"!alias A:", "int"}, {"!enum A:", "one: 1"}, {"!union A:", "int"}}[shape-5]
+		w.emit("app", 0, "App:")
+		w.emit("ep", 4, decl[0])
+		w.emit("", 8, decl[1])
+		w.emit("app2", 0, "App:")
+		w.emit("ep2", 4, decl[0])
+		w.emit("", 8, decl[1])
+	}
+	mod, err, crashed, _ := feCompileText(w.text)
+	nd.Assert("more:compiles", !crashed && err == nil && mod != nil)
+	if crashed || err != nil || mod == nil {
+		return
+	}
+	app := mod.Apps["App"]
+	one := func(scs []*sysl.SourceContext, key string) bool {
+		return len(scs) == 1 && c08At(scs[0], w.pos[key]) && c08EndOK(scs[0])
+	}
+	two := func(scs []*sysl.SourceContext, k1, k2 string) bool {
+		return len(scs) == 2 && c08At(scs[0], w.pos[k1]) && c08At(scs[1], w.pos[k2]) && c08EndOK(scs[0]) && c08EndOK(scs[1])
+	}
+	switch shape {
+	case 0:
+		fs := app.Types["T"].GetTuple().GetAttrDefs()
+		nd.Assert("more:field-with-array-size", fs["f"] != nil && one(fs["f"].SourceContexts, "f"))
+		nd.Assert("more:field-after-it", fs["g"] != nil && one(fs["g"].SourceContexts, "g"))
+	case 1:
+		fs := app.Types["T"].GetTuple().GetAttrDefs()
+		nd.Assert("more:field-with-inline-tuple", fs["f"] != nil && one(fs["f"].SourceContexts, "f"))
+		in := app.Types["T.f"]
+		nd.Assert("more:inline-tuple-type", in != nil && one(in.SourceContexts, "f"))
+		if in != nil {
+			x := in.GetTuple().GetAttrDefs()["x"]
+			nd.Assert("more:field-of-inline-tuple", x != nil && one(x.SourceContexts, "inner"))
+		}
+	case 2:
+		a := app.Attrs["note"]
+		nd.Assert("more:multi-line-annotation-declared-again", a != nil && two(a.SourceContexts, "anno", "anno2"))
+	case 3:
+		ep := app.Endpoints["e"]
+		nd.Assert("more:endpoint-re-opened-with-an-annotation", ep != nil && two(ep.SourceContexts, "ep", "ep2"))
+		if ep != nil && len(ep.Stmt) == 2 {
+			last := ep.Stmt[1].SourceContexts
+			// the statement ends in its own block: before the second "App:" line
+			nd.Assert("more:statement-ends-within-its-own-declaration", len(last) == 1 && c08At(last[0], w.pos["s2"]) && c08EndOK(last[0]) &&
+				int(last[0].End.Line) <= w.pos["app2"][0])
+		}
+	case 4:
+		ep := app.Endpoints["Ev"]
+		nd.Assert("more:event-declared-again", ep != nil && two(ep.SourceContexts, "ep", "ep2"))
+	case 5, 6, 7:
+		t := app.Types["A"]
+		nd.Assert("more:alias-enum-union-declared-again", t != nil && two(t.SourceContexts, "ep", "ep2"))
+	}
+}
